@@ -73,7 +73,8 @@ def check(ctx, rep):
     all_events = []
     for fi in sorted(prog.functions.values(), key=lambda f: f.key):
         for ci in ctx.instances(fi):
-            ps, it = ctx.paths(fi, ci, depth=0)
+            # small helpers of the same class are inlined (a method that returns the label dict)
+            ps, it = ctx.paths(fi, ci, depth=1, inline=lambda callee, ev, path: callee.owner is not None and fi.owner is not None and callee.owner in fi.owner.mro() and callee.name != "__init__")
             for p in ps:
                 for e in p.calls():
                     m = q.metric_of(e)
